@@ -98,6 +98,26 @@ def abstract_hop_cycle_cases(max_len):
     return out
 
 
+def spread_only_cycle_cases(max_len):
+    """Cycles of fragments whose whole body is one spread (the shape that is generated as a type alias), on object,
+    interface and union types, reached directly, next to a field, or through an entry fragment that is itself only a spread."""
+    out = []
+    for tname, root_field in (("O", "o"), ("I", "i"), ("U", "u")):
+        for n in range(1, max_len + 1):
+            for entry in ("direct", "with_sibling", "alias_entry"):
+                frs = [FragDef("F%d" % i, tname, [Spread("F%d" % ((i + 1) % n))]) for i in range(n)]
+                if entry == "alias_entry":
+                    frs.append(FragDef("Entry", tname, [Spread("F0")]))
+                first = Spread("Entry" if entry == "alias_entry" else "F0")
+                body = [first] if entry != "with_sibling" else ([TN()] if tname != "O" else [Field("id")]) + [first]
+                for order in ("fragments_first", "operation_first"):
+                    op = Op("query", "Op", [Field(root_field, body)])
+                    defs = frs + [op] if order == "fragments_first" else [op] + frs
+                    out.append({"family": "spread_only_cycle", "desc": "type=%s len=%d entry=%s order=%s" % (tname, n, entry, order),
+                                "schema": CYCLE_SCHEMA, "ext": "graphql", "query": gql.render_doc(Doc(defs))})
+    return out
+
+
 def input_cycle_cases():
     out = []
     kinds = ["%s", "%s!", "[%s]", "[%s!]!"]
@@ -251,6 +271,7 @@ def run(tier):
     cases = []
     cases += cycle_cases(6)
     cases += abstract_hop_cycle_cases(6)
+    cases += spread_only_cycle_cases(6)
     cases += input_cycle_cases()
     cases += nesting_cases([1, 2, 4, 8, 16, 24, 32, 40, 48, 56, 64] if tier == "quick" else list(range(1, 65)) + [96, 128])
     cases += odd_schema_cases()
@@ -260,7 +281,7 @@ def run(tier):
                    dict(DEFAULT_OPTS, deprecation="deny", mode="derive", struct_ident="Op", operation_name="Op")]
     more = []
     for c in cases:
-        if c["family"] in ("spread_cycle", "spread_cycle_abstract_hop", "input_cycle", "odd_schema", "odd_json_schema", "no_implementors", "selection_nesting", "selection_nesting_abstract", "inline_nesting", "list_nesting") and "options" not in c:
+        if c["family"] in ("spread_cycle", "spread_cycle_abstract_hop", "spread_only_cycle", "input_cycle", "odd_schema", "odd_json_schema", "no_implementors", "selection_nesting", "selection_nesting_abstract", "inline_nesting", "list_nesting") and "options" not in c:
             for oi, o in enumerate(OPTION_SETS):
                 more.append(dict(c, options=o, desc=c["desc"] + " [option set %d]" % (oi + 1)))
     cases += more
